@@ -265,7 +265,7 @@ def check_lfda(case, stats):
 CHECKS = {'check_cov': check_cov, 'check_rca': check_rca, 'check_lfda': check_lfda}
 _STR = {'check_cov': cov_case, 'check_rca': rca_case, 'check_lfda': lfda_case}
 _B = {'quick': dict(check_cov=800, check_rca=600, check_lfda=400),
-      'thorough': dict(check_cov=5000, check_rca=3000, check_lfda=1500)}
+      'thorough': dict(check_cov=50000, check_rca=20000, check_lfda=8000)}
 
 
 def shards(tier):
